@@ -266,7 +266,7 @@ func ruleGuardedBy(c *Ctx, prefix string, only ...string) {
 			mk := e.Mutex
 			if v, isVal := in.(ssa.Value); isVal && !write {
 				// remember in which critical section this value was read
-				st.seen["gr:"+v.Name()] = true
+				st.seen["gr:"+anm(v)] = true
 			}
 			if e.Field != nil {
 				// the owner must be the receiver
@@ -311,7 +311,7 @@ func ruleGuardedBy(c *Ctx, prefix string, only ...string) {
 						if e2, w2, _ := guardedAccess(ex, st, ov, table); e2 == nil || w2 {
 							continue
 						}
-						cur := st.seen["gr:"+o.Name()]
+						cur := st.seen["gr:"+anm(o)]
 						if !cur {
 							rmwBad = append(rmwBad, fmt.Sprintf("%s at %s is written with a value derived from guarded state read at %s in an earlier critical section (read-modify-write split across an unlock: concurrent updates are lost)", e.Name, c.P.InstrPos(in), c.P.InstrPos(ov)))
 						}
